@@ -131,6 +131,78 @@ def gen_batch(rng, base, first_ts, nrec=None, wide_ts=True, sparse=True):
     return {"base": base, "first": first_ts, "max": max_ts, "lod": lod, "recs": recs}
 
 
+# ----------------------------------------------------------------------------- boundary shapes
+# Every varint field of the record format at the edges of its encoding widths (zig-zag: 63|64 and -64|-65 is the
+# 1|2-byte edge, 8191|8192 the 2|3-byte edge), the smallest possible records (7 bytes: length, attributes, 1-byte
+# deltas, null/empty key and value, 0 headers), 0-length vs null, headers with empty keys / empty / null values.
+EDGE_LENS = [0, 1, 63, 64, 65, 127, 128, 8191, 8192]
+EDGE_DELTAS = [0, 1, -1, 63, 64, -64, -65, 8191, 8192, -8192, -8193]
+
+
+def minimal_record(rng, od):
+    """A 7-byte record (when od < 64): null or empty key, null or empty value, no headers, 1-byte deltas."""
+    return {"attrs": 0, "tsd": rng.range(-64, 63) if od else 0, "od": od, "key": rng.choice([None, b""]),
+            "val": rng.choice([None, b""]), "hdrs": []}
+
+
+def edge_bytes(rng, n):
+    return rng.bytes(n)
+
+
+def shape_batch(rng, shape, base, first_ts):
+    """One batch of a named boundary shape (all choices from rng)."""
+    if shape == "minimal":                       # every record 7 bytes
+        n = rng.choice([1, 1, 2, 3, 8, 63, 64])
+        recs = [minimal_record(rng, i) for i in range(n)]
+    elif shape == "minimal-one-fat":             # average just below / above 8 bytes per record
+        n = rng.choice([2, 3, 7, 8, 9])
+        recs = [minimal_record(rng, i) for i in range(n)]
+        recs[rng.below(n)]["val"] = rng.bytes(rng.choice([1, 1, 2, n - 1, n, n + 1]))
+    elif shape == "single":                      # single-record batches of every flavour
+        r = gen_record(rng, 0, True)
+        if rng.chance(1, 2):
+            r = minimal_record(rng, 0)
+        recs = [r]
+    elif shape == "edge-lengths":                # key/value/header lengths on the varint width edges
+        recs = []
+        for i in range(rng.choice([1, 2, 3])):
+            recs.append({"attrs": 0, "tsd": 0 if i == 0 else rng.choice(EDGE_DELTAS), "od": i,
+                         "key": edge_bytes(rng, rng.choice(EDGE_LENS[:7])), "val": edge_bytes(rng, rng.choice(EDGE_LENS)),
+                         "hdrs": [(edge_bytes(rng, rng.choice([0, 1, 63, 64])), edge_bytes(rng, rng.choice([0, 63, 64, 127, 128])))
+                                  for _ in range(rng.choice([0, 1, 2]))]})
+    elif shape == "edge-deltas":                 # offset / timestamp deltas on the edges, sparse offsets
+        ods = sorted(set([0] + [rng.choice([1, 62, 63, 64, 65, 127, 128, 8191, 8192, 8193]) for _ in range(rng.choice([1, 2, 4]))]))
+        recs = [dict(minimal_record(rng, od), tsd=(0 if k == 0 else rng.choice(EDGE_DELTAS))) for k, od in enumerate(ods)]
+    elif shape == "many-headers":                # header count on the 63|64 edge; empty keys, empty and null values
+        nh = rng.choice([1, 2, 63, 64, 65])
+        hdrs = [(rng.choice([b"", b"k", b"kk"]), rng.choice([None, b"", b"v"])) for _ in range(nh)]
+        recs = [{"attrs": 0, "tsd": 0, "od": 0, "key": rng.choice([None, b""]), "val": rng.choice([None, b""]), "hdrs": hdrs}]
+        if rng.chance(1, 2):
+            recs.append(minimal_record(rng, 1))
+    else:                                        # "null-vs-empty": all four key/value combinations, headers likewise
+        combos = [(None, None), (None, b""), (b"", None), (b"", b""), (b"", b"x"), (b"x", b""), (None, b"x"), (b"x", None)]
+        recs = [{"attrs": 0, "tsd": i, "od": i, "key": k, "val": v,
+                 "hdrs": [] if i % 2 else [(b"", None), (b"", b""), (b"h", b"")]} for i, (k, v) in enumerate(combos)]
+    lod = recs[-1]["od"]
+    return {"base": base, "first": first_ts, "max": max(first_ts + r["tsd"] for r in recs), "lod": lod, "recs": recs}
+
+
+SHAPES = ["minimal", "minimal", "minimal-one-fat", "single", "edge-lengths", "edge-deltas", "many-headers", "null-vs-empty"]
+
+
+def gen_shape_batches(rng, shape=None):
+    """1-3 batches, each of a boundary shape (same shape when given)."""
+    base = rng.choice([0, 0, 1, 1000, 2 ** 32 + 7])
+    ts = rng.choice([0, 1700000000000])
+    out = []
+    for _ in range(rng.choice([1, 1, 2, 3])):
+        b = shape_batch(rng, shape or rng.choice(SHAPES), base, ts)
+        out.append(b)
+        base += b["lod"] + 1
+        ts += rng.choice([0, 1, 1000])
+    return out
+
+
 def gen_batches(rng, nb=None, wide_ts=True, contiguous=None):
     nb = nb if nb is not None else rng.choice([1, 1, 2, 3, 4, 6])
     base = rng.choice([0, 0, 1, 5, 1000, 2 ** 31 - 2, 2 ** 32 + 7, 2 ** 40])
